@@ -271,6 +271,38 @@ func vRunCase3(t *testing.T, c vCase) (msg string) {
 				}
 			}
 		}
+	case "identity-producers":
+		// every way of producing the identity, on receivers in every prior state incl. the zero value of the type
+		g := vG()
+		recvs := func() []*Element {
+			return []*Element{new(Element), NewElement(), vElementOf(vMulPt(big.NewInt(5), g), big.NewInt(7)), vElementOf(vInf(), big.NewInt(3))}
+		}
+		prods := map[string]func(e *Element){
+			"Identity()":      func(e *Element) { e.Identity() },
+			"Decode(00)":      func(e *Element) { _ = e.Decode([]byte{0}) },
+			"Multiply(nil)":   func(e *Element) { e.Multiply(nil) },
+			"UnmarshalBinary": func(e *Element) { _ = e.UnmarshalBinary([]byte{0}) },
+			"Multiply(0)":     func(e *Element) { e.Multiply(NewScalar()) },
+			"Subtract(self)":  func(e *Element) { e.Subtract(e) },
+		}
+		for name, f := range prods {
+			for i, e := range recvs() {
+				if i == 0 && (name == "Multiply(0)" || name == "Subtract(self)") {
+					continue // arithmetic on the zero value of the type is outside the API's contract
+				}
+				f(e)
+				if pt, ok := vPointOf(e); !ok || !pt.inf {
+					return name + " on receiver #" + itoa(i) + " does not leave a valid representation of the identity"
+				}
+				q := vElementOf(g, big.NewInt(9))
+				if e.Equal(q) != 0 || q.Equal(e) != 0 || !e.IsIdentity() {
+					return name + " on receiver #" + itoa(i) + ": the result compares equal to a finite point"
+				}
+				if got, ok := vPointOf(e.Add(q)); !ok || !vSame(got, g) {
+					return name + " on receiver #" + itoa(i) + ": identity + G != G"
+				}
+			}
+		}
 	case "el-scaled":
 		// a, b: projective scalings (Z values) of receiver and argument taken from a solver model
 		la, lb := vBig(c.A), vBig(c.B)
